@@ -41,6 +41,9 @@ def add_prehistory(rng, case, mode):
 def plain_next_to_annotated(rng, ops):
     script, k = [], 0
     for op in ops:
+        if op[0] == "ann_c" and rng.random() < 0.4:
+            k += 1
+            script.append(["bind_c", 900 + k])          # the plain binding first, the tagged one after it (same call)
         script.append(op)
         if op[0] == "ann_c" and rng.random() < 0.7:
             k += 1
